@@ -1,22 +1,32 @@
 #!/usr/bin/env python3
-"""Writes rules/reference_fns.json: the ids of all workspace functions of the tree the rule instances were confirmed on.
-The view "new" (rules/inline.py) splices into their callers exactly the private synchronous helpers that are *not* in this
-list, i.e. helpers a later change extracted.  Regenerate after a fix: commit to /repo:  python3 tools/gen_reference_fns.py"""
+"""Writes rules/reference.json: per build tag, the workspace functions (id -> signature, callee multiset) and the ADT field
+lists of the tree the rule instances were confirmed on.  Used only by the fallback *views* (rules/inline.py, rules/facts.py):
+  * view "new" splices into their callers exactly the private synchronous helpers that are not in this list (helpers a later
+    change extracted);
+  * every view presents a private function / field that was merely *renamed* (same container, same signature / same position
+    and type, unique match) under its reference name, so that rules which look a role up by name still find it.
+Regenerate after a `fix:` commit to /repo:  python3 tools/gen_reference_fns.py"""
 import json, os, sys
 sys.path.insert(0, os.path.join(os.path.dirname(__file__), ".."))
 from rules import build
-from rules.facts import DB
-ids = set()
+from rules.facts import DB, fn_signature
+ref = {}
 rh = build.repo_hash()
-for tag in ("dflt", "rc", "clus", "atr", "astd", "opv2", "mon", "rcatr", "ws"):
+for tag in ("dflt", "rc", "clus", "atr", "astd", "opv2", "mon", "rcatr", "ws", "gen", "pos"):
     try:
         db = DB(tag, build.facts_for(tag, rh))
     except build.BuildFailure as e:
         print("skip", tag)
         continue
+    fns = {}
     for f in db.fns.values():
         if (f.crate or "").startswith("ractor") and f.kind in ("fn", "method"):
-            ids.add(f.id)
-out = os.path.join(os.path.dirname(__file__), "..", "rules", "reference_fns.json")
-json.dump(sorted(ids), open(out, "w"), indent=0)
-print(len(ids), "function ids ->", out)
+            fns[f.id] = fn_signature(f)
+    adts = {}
+    for k, a in db.adts.items():
+        if (a.get("crate") or "").startswith("ractor"):
+            adts[k] = [[(fl["name"], fl["ty"]) for fl in v.get("fields", [])] for v in a.get("variants", [])]
+    ref[tag] = {"fns": fns, "adts": adts}
+out = os.path.join(os.path.dirname(__file__), "..", "rules", "reference.json")
+json.dump(ref, open(out, "w"), indent=0, sort_keys=True)
+print({t: len(v["fns"]) for t, v in ref.items()}, "->", out)
